@@ -6,19 +6,90 @@ RULE = ('random state trees (shapes rand/chain/bushy/two/comb/flat, up to 40 sta
         'initial transitions to any strict descendant, random reactions (handle / transition to any state / guard) '
         'and random event scripts on the plain HsmEventProcessor (every fifth case on InstrumentedHsmEventProcessor or HsmWithQueues, instrumented or not, handlers under spy_on or plain, stepped through dispatch()); every dispatch is compared with an independent '
         'reference model (exact exit*/entry*/init list and rest state); in every second case client code calls is_in / '
-        'child_state on random states between two events, and in every third case entry / exit / init ACTIONS ask is_in / child_state themselves, in the middle of the step (the IS_IN / history idioms). distinct_nontrivial = distinct '
+        'child_state on random states between two events, and in every third case entry / exit / init ACTIONS ask is_in / child_state themselves, in the middle of the step (the IS_IN / history idioms). Every sixth case runs TWO charts: entry / exit / init actions and reactions of a container chart hand events to a component chart (chart_b.dispatch(e) inside a handler of chart_a, the orthogonal-component idiom), and both must follow their own designs. distinct_nontrivial = distinct '
         '(topology class a-h, depth of S, depth of T, depth of current state, init-chain length) tuples among '
         'steps that were transitions')
 CASES = {'quick': 30000, 'thorough': 600000}
 BUDGET = {'quick': 150, 'thorough': 300}
 REQUIRE = {'transitions': 1000, 'topo_a': 1, 'topo_b': 1, 'topo_c': 1, 'topo_d': 1, 'topo_e': 1,
-           'topo_f': 1, 'topo_g': 1, 'topo_h': 1, 'init_chain_after_deep_target': 1, 'state_queries_made_by_actions': 20000, 'runs_on_instrumented_or_queued_hosts': 3000}
+           'topo_f': 1, 'topo_g': 1, 'topo_h': 1, 'init_chain_after_deep_target': 1, 'state_queries_made_by_actions': 20000, 'runs_on_instrumented_or_queued_hosts': 3000, 'container_and_component_runs': 3000, 'steps_in_which_both_charts_made_a_transition': 2000}
 ASSUME = ['generated charts are well-formed: handlers return a status, parents form a tree, inits target strict descendants',
           'the reference model in vt/chartgen.py is the reading of the statement (cross-checked three ways against plain and instrumented hosts)']
 PROPS = ('C01',)
 
 
+def component_case(ctx, n):
+  """a chart whose entry / exit / init actions and reactions hand events to ANOTHER chart object (an orthogonal component it
+  owns: chart_b.dispatch(e) from inside a handler of chart_a, the component running to completion in the middle of the
+  container's step).  Both charts must do what their own design says: whatever one event processor keeps while it works
+  belongs to that chart object only"""
+  from miros.event import Event
+  from miros.hsm import HsmEventProcessor, InstrumentedHsmEventProcessor, HsmWithQueues
+  rng = ctx.rng('component', n)
+  spec_a = cg.gen_spec(rng, **seqrun.pick_params(rng, ctx.tier))
+  spec_b = cg.gen_spec(rng, nmax=rng.choice([4, 8, 12]))
+  spec_b['names'] = ['c_' + x for x in spec_b['names']]
+  sig_b = spec_b['sigs'][:-1]
+  for i, cl in enumerate(spec_a['clauses']):
+    for ci, cn in enumerate(('entry', 'exit', 'init')):
+      if cl[ci] and rng.random() < 0.3:
+        spec_a['acts']['%d:%s' % (i, cn)] = [['dispatch_component', rng.choice(sig_b)] for _ in range(rng.randint(1, 2))]
+  for key in sorted(spec_a['react']):
+    if rng.random() < 0.2:
+      spec_a['react'][key]['acts'] = [['dispatch_component', rng.choice(sig_b)]]
+  start_a, start_b = rng.randrange(spec_a['n']), rng.randrange(spec_b['n'])
+  script = cg.gen_script(rng, spec_a, rng.randint(10, 40))
+  host, hk = rng.choice([(HsmEventProcessor, {}), (HsmEventProcessor, {}), (InstrumentedHsmEventProcessor, {}), (HsmWithQueues, {'instrumented': True}), (HsmWithQueues, {'instrumented': False})])
+  spied = host is not HsmEventProcessor and rng.random() < 0.5
+  run_a, run_b = cg.Run(spec_a, spied=spied), cg.Run(spec_b, spied=spied)
+  chart_a, chart_b = cg.counted_host(host, run_a)(**hk), cg.counted_host(host, run_b)(**hk)
+  run_a.component = chart_b
+  ma, mb = cg.Model(spec_a), cg.Model(spec_b)
+  wit = {'container': spec_a, 'component': spec_b, 'start': (start_a, start_b), 'script': script, 'host': host.__name__}
+  ctx.count('container_and_component_runs')
+
+  def judge(k, sn, exp_a):
+    comp = [r[2] for r in run_a.log if r[0] == 'act' and r[1] == 'dispatch_component']
+    exp_b = []
+    for sg in comp:
+      exp_b += mb.dispatch(sg)[0]
+    ctx.count('events_handed_to_the_component_inside_a_step', len(comp))
+    if any(r[0] in ('entry', 'exit') for r in exp_b) and any(r[0] in ('entry', 'exit') for r in exp_a):
+      ctx.count('steps_in_which_both_charts_made_a_transition')
+    where = 'start_at' if k < 0 else 'step %d (%s)' % (k, sn)
+    if seqrun.split(run_a.log) != seqrun.split(exp_a) or chart_a.state_name != spec_a['names'][ma.cur]:
+      ctx.violation('C01/transition-actions-differ', '%s of a chart whose handlers hand events to a component chart (%d during this step): offers / actions %r rest %s, its design gives %r rest %s' % (
+        where, len(comp), seqrun.split(run_a.log), chart_a.state_name, seqrun.split(exp_a), spec_a['names'][ma.cur]), dict(wit, failing_step=k))
+      return False
+    if seqrun.split(run_b.log) != seqrun.split(exp_b) or chart_b.state_name != spec_b['names'][mb.cur]:
+      ctx.violation('C01/transition-actions-differ', '%s: the COMPONENT chart (given %r by the container\'s handlers) did %r and rests in %s, its design gives %r rest %s' % (
+        where, comp, seqrun.split(run_b.log), chart_b.state_name, seqrun.split(exp_b), spec_b['names'][mb.cur]), dict(wit, failing_step=k))
+      return False
+    return True
+  try:
+    chart_b.start_at(run_b.fns[start_b])
+    if seqrun.split(run_b.log)[1] != mb.start(start_b):
+      ctx.count('other_property_disagreements')
+      return
+    run_b.reset_logs()
+    chart_a.start_at(run_a.fns[start_a])
+    if not judge(-1, None, ma.start(start_a)):
+      return
+    for k, sn in enumerate(script):
+      run_a.reset_logs()
+      run_b.reset_logs()
+      exp_a = ma.dispatch(sn)[0]
+      chart_a.dispatch(Event(signal=sn))
+      if not judge(k, sn, exp_a):
+        return
+      ctx.count('steps')
+  except cg.Budget:
+    ctx.violation('C0x/dispatch-does-not-terminate', 'a step of a chart whose handlers hand events to a component chart exceeded the step budget', wit)
+
+
 def run_case(ctx, n):
+  if n % 6 == 1:
+    return component_case(ctx, n)
   rng = ctx.rng('case', n)
   spec = cg.gen_spec(rng, clause_queries=n % 3 == 0, **seqrun.pick_params(rng, ctx.tier))
   start = rng.randrange(spec['n'])
